@@ -225,7 +225,9 @@ def run_one(mod, case):
         return res
     limit = getattr(mod, 'RUN_TIMEOUT', None)
     armed = False
-    if limit and threading.current_thread() is threading.main_thread():
+    if limit and 'twin' not in case and threading.current_thread() is threading.main_thread():
+        # (scheduled twin runs are bounded by their deterministic step cap instead: frequent baton passing makes
+        #  their wall-clock time a poor measure)
         old_handler = signal.signal(signal.SIGALRM, _on_alarm)
         signal.setitimer(signal.ITIMER_REAL, float(limit))
         armed = True
@@ -310,16 +312,21 @@ def run_batch(modname, tier, root, *, n_runs, budget_s, workers=None, batch=None
         units_done = False
         next_i = 0
         stop_new = False
+        units_submitted = 0
         try:
             while True:
                 # top up
                 while not stop_new and len(pending) < workers * 2:
+                    if not units_done and time.time() - t0 > budget_s * 0.6:
+                        units_done = True       # the rest of the budget belongs to the seeded runs
+                        continue
                     if not units_done:
                         nxt = next(unit_iter, None)
                         if nxt is None:
                             units_done = True
                             continue
                         pending.add(ex.submit(_task_unit, nxt[0], nxt[1]))
+                        units_submitted += 1
                         continue
                     if next_i >= n_runs:
                         break
@@ -352,7 +359,8 @@ def run_batch(modname, tier, root, *, n_runs, budget_s, workers=None, batch=None
             raise
     agg.wall = time.time() - t0
     agg.submitted_runs = submitted_runs
-    agg.units = len(units)
+    agg.units = units_submitted
+    agg.units_total = len(units)
     return agg
 
 
